@@ -71,6 +71,9 @@ def entities():
                         return x.replace('IssueInstant="%s"' % build.ts(NOW), 'IssueInstant="%s"' % build.ts(NOW - 1), 1) if (bad and 'A' not in shape) else x
                     docs[(shape, enc, bad)] = build.render(r, [a], sign_response=1 if 'R' in shape else None, sign_assertions=1 if 'A' in shape else None,
                                                           encrypt_for=enc, post_assertion=pa, post_response=pr)
+        # forgeries that carry their own key: signed with a key the metadata does not list (pool 5), the public key announced as ds:KeyValue inside the signature
+        for shape in ('R', 'A', 'RA'):
+            docs[(shape, None, 'kv')] = build.render(r, [a], sign_response=5 if 'R' in shape else None, sign_assertions=5 if 'A' in shape else None, keyinfo=build.rsa_keyvalue(5))
         docs[('none', 2, False)] = build.render(r, [a], encrypt_for=2)
         docs[('none', 3, False)] = build.render(r, [a], encrypt_for=3)
         _w['docs'] = docs
@@ -125,6 +128,9 @@ def positions(pos):
 def rows():
     out = []
     for pos in ('first', 'second', 'every', 'from-second'):
+        for mode in VERIFY_MODES:
+            for site in ('response-verify', 'assertion-verify', 'both-verify', 'both-verify-nothing-required'):
+                out.append({'site': site, 'mode': mode, 'pos': pos, 'bad': 'kv'})
         for bad in (False, True):
             for mode in VERIFY_MODES:
                 for site in ('response-verify', 'assertion-verify', 'both-verify', 'both-verify-response-required', 'both-verify-nothing-required', 'request-verify', 'metadata-verify',
@@ -160,7 +166,7 @@ def run(case):
     w = entities()
     clock.set_now(NOW)
     site, mode, pos, bad = case['site'], case['mode'], case['pos'], case['bad']
-    label = '%s|%s|%s' % (site, pos, 'corrupted' if bad else 'valid')
+    label = '%s|%s|%s' % (site, pos, ('forged-own-keyvalue' if bad == 'kv' else 'corrupted') if bad else 'valid')
     if (site.endswith('-verify') or site.startswith('both-verify')) and site not in ('request-verify', 'metadata-verify'):
         shape, sp, enc = {'response-verify': ('R', 'sp-r', None), 'assertion-verify': ('A', 'sp-a', None), 'both-verify': ('RA', 'sp-ra', None),
                           # both signatures present, the SP configuration asks for one / none of them: the other one is still verified, and over several passes
@@ -172,7 +178,8 @@ def run(case):
             hits = plan.hits()
         if v[0] == 'accept':
             if bad:
-                raise Violation('corrupted-accepted-under-fault', '%s: document with an invalid signature accepted while verification #%s was faulted with %s' % (site, pos, mode))
+                raise Violation('corrupted-accepted-under-fault', '%s: %s accepted while verification #%s was faulted with %s'
+                                % (site, 'a forgery signed with a key outside the metadata (announced as ds:KeyValue)' if bad == 'kv' else 'document with an invalid signature', pos, mode))
             if pos == 'every' and hits:
                 raise Violation('accepted-without-successful-verification', '%s: every --verify invocation was faulted with %s (%d hits), yet the response was accepted' % (site, mode, hits))
             if pos == 'from-second' and hits and shape == 'RA':
